@@ -38,8 +38,11 @@ type Op struct {
 	// ev: Event.CreatedAt 0 zero time, 1 far ahead of the filter's clock, 2 far behind it (the filter must go by its own clock)
 	Created int `json:"created,omitempty"`
 	// ev: the payload is a typed nil *gp inside the interface (its GetID answers ""): no id
-	NilPayload bool  `json:"nil_payload,omitempty"`
-	D          int64 `json:"d,omitempty"` // adv: clock advance in ns
+	NilPayload bool `json:"nil_payload,omitempty"`
+	// ev: the concrete payload type: 0 the case default, 1 value-receiver struct by value, 2 *request struct embedding the implementation,
+	// 3 response struct (by value) embedding a pointer to it, 4 pointer to the plain payload
+	PType int   `json:"ptype,omitempty"`
+	D     int64 `json:"d,omitempty"` // adv: clock advance in ns
 }
 type Cfg struct {
 	Broker     bool   `json:"broker"`
@@ -146,6 +149,16 @@ type gpv struct {
 	n     int
 }
 
+// two more concrete Gateable types sharing the implementation by embedding: a "request" and a "response" struct
+type gpReq struct {
+	gp
+	method string
+}
+type gpResp struct {
+	*gp
+	status int
+}
+
 func (g gpv) GetID() string                                                  { return g.id }
 func (g gpv) FlushEvent() bool                                               { return g.flush }
 func (g gpv) ComposeFrom(evs []*el.Event) (el.EventType, interface{}, error) { return composeFrom(evs) }
@@ -178,6 +191,10 @@ func readPairs(evs []*el.Event) []pair {
 		} else if p, ok := x.Payload.(*gp); ok && p != nil {
 			arg = append(arg, pair{idNum(p.id), p.n})
 		} else if p, ok := x.Payload.(gpv); ok {
+			arg = append(arg, pair{idNum(p.id), p.n})
+		} else if p, ok := x.Payload.(*gpReq); ok {
+			arg = append(arg, pair{idNum(p.id), p.n})
+		} else if p, ok := x.Payload.(gpResp); ok && p.gp != nil {
 			arg = append(arg, pair{idNum(p.id), p.n})
 		} else {
 			arg = append(arg, pair{98, 0}) // something that was never a gated event
@@ -587,6 +604,16 @@ func execCaseInner(c Case, at *int32) (calls []Op, nums []int, obs []Obs, panick
 			ev := &el.Event{Type: "t", Payload: &gp{id: idName[op.ID], flush: op.Flush, n: n}}
 			if c.ValuePayload {
 				ev.Payload = gpv{id: idName[op.ID], flush: op.Flush, n: n}
+			}
+			switch op.PType {
+			case 1:
+				ev.Payload = gpv{id: idName[op.ID], flush: op.Flush, n: n}
+			case 2:
+				ev.Payload = &gpReq{gp: gp{id: idName[op.ID], flush: op.Flush, n: n}, method: "GET"}
+			case 3:
+				ev.Payload = gpResp{gp: &gp{id: idName[op.ID], flush: op.Flush, n: n}, status: 200}
+			case 4:
+				ev.Payload = &gp{id: idName[op.ID], flush: op.Flush, n: n}
 			}
 			if op.NilPayload {
 				ev.Payload = (*gp)(nil)
@@ -1609,6 +1636,63 @@ func genExtremes(e *emitter) {
 	}
 }
 
+// genTypes: several concrete Gateable payload types through one filter — a value-receiver struct by value, a pointer to the plain payload, a
+// pointer to a "request" struct and a "response" struct by value that embed the same implementation — mixed within one id's group and across
+// ids, the first event of the filter being of each type in turn: every one of them is a Gateable event like any other.
+func genTypes(e *emitter) {
+	types := []int{1, 2, 3, 4}
+	for _, broker := range []bool{true, false} {
+		for _, a := range types {
+			for _, b := range types {
+				for _, c := range types {
+					if a == b && b == c {
+						continue
+					}
+					ops := []Op{{K: "ev", ID: 1, PType: a}, {K: "ev", ID: 1, PType: b}, {K: "ev", ID: 2, PType: c}, {K: "ev", ID: 2, PType: a}, {K: "ev", ID: 1, Flush: true, PType: c},
+						{K: "adv", D: 11}, {K: "ev", ID: 3, PType: b}, {K: "ev", ID: 3, Flush: true, PType: a}, {K: "ev", ID: 1, PType: c}, {K: "flushall"}}
+					e.emit(Case{Gen: "payload-types", Cfg: Cfg{Broker: broker, Exp: 10}, Ops: ops})
+				}
+			}
+		}
+	}
+}
+
+// genLong: LONG runs on one filter — 70 / 130 / 200 / 300 group closures by a rotating mix of flush events, expiry and FlushAll over three ids,
+// so that an id is used again right after its group was closed; the full oracle runs after every call.  (Counters and thresholds inside the
+// implementation — caches rebuilt every n removals, pools — only show after that many operations.)
+func genLong(e *emitter, r *hc.Rand) {
+	for _, closures := range []int{70, 130, 200, 300} {
+		for _, broker := range []bool{true, false} {
+			var ops []Op
+			closed := 0
+			for k := 0; closed < closures; k++ {
+				id := 1 + k%3
+				ops = append(ops, Op{K: "ev", ID: id})
+				if r.Chance(1, 3) {
+					ops = append(ops, Op{K: "ev", ID: id})
+				}
+				switch k % 5 {
+				case 0, 3:
+					ops = append(ops, Op{K: "ev", ID: id, Flush: true})
+					closed++
+				case 1:
+					ops = append(ops, Op{K: "adv", D: 11}, Op{K: "ev", ID: 1 + (k+1)%3}) // the sweep closes what is open
+					closed++
+				case 2:
+					ops = append(ops, Op{K: "ev", ID: 1 + (k+1)%3}, Op{K: "flushall"})
+					closed += 2
+				default:
+					ops = append(ops, Op{K: "close"})
+					closed++
+				}
+				ops = append(ops, Op{K: "ev", ID: id}) // the same id again right after its group was closed
+			}
+			ops = append(ops, Op{K: "ev", ID: 1, Flush: true}, Op{K: "ev", ID: 2, Flush: true}, Op{K: "ev", ID: 3, Flush: true}, Op{K: "flushall"})
+			e.emit(Case{Gen: "long", Cfg: Cfg{Broker: broker, Exp: 10}, Ops: ops})
+		}
+	}
+}
+
 func maxID(h []Op) int {
 	m := 0
 	for _, o := range h {
@@ -1671,6 +1755,7 @@ func genRandom(e *emitter, r *hc.Rand, n, maxLen, ids int) {
 			cfg.ErrKind = faultErrNames[r.Intn(len(faultErrNames))]
 		}
 		valuePayload, twin := r.Chance(1, 5), r.Chance(1, 5) && cfg.SFail == 0
+		mixed := r.Chance(1, 3)
 		randCtx := func() string {
 			if r.Chance(doneP, 6) {
 				return ctxKinds[1+r.Intn(len(ctxKinds)-1)]
@@ -1685,7 +1770,8 @@ func genRandom(e *emitter, r *hc.Rand, n, maxLen, ids int) {
 				if r.Chance(1, 25) {
 					id = 0
 				}
-				ops = append(ops, Op{K: "ev", ID: id, Flush: r.Chance(flushP, 10), Ctx: randCtx(), Created: []int{0, 0, 1, 2}[r.Intn(4)], NilPayload: !valuePayload && r.Chance(1, 40)})
+				ops = append(ops, Op{K: "ev", ID: id, Flush: r.Chance(flushP, 10), Ctx: randCtx(), Created: []int{0, 0, 1, 2}[r.Intn(4)], NilPayload: !valuePayload && r.Chance(1, 40),
+					PType: map[bool]int{true: 1 + r.Intn(4), false: 0}[mixed]})
 			case k < 12:
 				ops = append(ops, Op{K: "plain"})
 			case k < 17:
@@ -1932,6 +2018,8 @@ func main() {
 			genOrder(e)
 			genFields(e)
 			genExtremes(e)
+			genTypes(e)
+			genLong(e, r.Fork())
 		case "":
 		default:
 			fmt.Fprintf(os.Stderr, "unknown mode %s\n", m)
